@@ -315,7 +315,7 @@ func (m *evalModel) schemaSources(c *Ctx, v ssa.Value) []string {
 		if o == "" {
 			o = "struct"
 		}
-		return o + "." + core.StructField(base, idx).Name()
+		return o + "." + core.CanonFieldOf(base, idx)
 	}
 	walk = func(v ssa.Value) {
 		if v == nil || seen[v] {
